@@ -43,6 +43,7 @@ type fpTrace struct {
 	Origin   string // "tlc" | "preempt" | "random"
 	Schedule []string
 	Drift    string // first divergence from the model-predicted step (tlc origin)
+	ObsOnly  bool   // statement forms FileProtocol.tla has no action list for: judged by the observation specification only
 }
 
 func filesOf(in fpInit) []string {
@@ -116,7 +117,7 @@ func finish(s *sched.Sched, tr *fpTrace) {
 func runSchedule(r *core.Run, in fpInit, schedule []string, origin string) *fpTrace {
 	dir := r.Dir("fp")
 	defer os.RemoveAll(dir)
-	tr := &fpTrace{Init: in, Origin: origin}
+	tr := &fpTrace{Init: in, Origin: origin, ObsOnly: obsOnly(in)}
 	s := sched.New(dir, filesOf(in), in.Exists, in.Progs)
 	defer s.Close()
 	for _, d := range schedule {
@@ -335,6 +336,22 @@ var fpProgs = map[string][]sched.Op{
 	"UC2":  {{Op: "update", F: "f2"}, {Op: "commit", F: "-"}},
 	"U12C": {{Op: "update", F: "f1"}, {Op: "update", F: "f2"}, {Op: "commit", F: "-"}},
 	"U21C": {{Op: "update", F: "f2"}, {Op: "update", F: "f1"}, {Op: "commit", F: "-"}},
+	// SELECT .. FOR UPDATE, of one table and of a set operation over two
+	"FC":  {{Op: "fu", F: "f1"}, {Op: "commit", F: "-"}},
+	"FUC": {{Op: "fu", F: "f1"}, {Op: "update", F: "f1"}, {Op: "commit", F: "-"}},
+	"F2C": {{Op: "fu2", F: "f1"}, {Op: "commit", F: "-"}},
+	"F2U": {{Op: "fu2", F: "f1"}, {Op: "update", F: "f2"}, {Op: "commit", F: "-"}},
+}
+
+func obsOnly(in fpInit) bool {
+	for _, pg := range in.Progs {
+		for _, o := range pg {
+			if o.Op == "fu" || o.Op == "fu2" {
+				return true
+			}
+		}
+	}
+	return false
 }
 
 var fpProcs = []string{"p1", "p2", "p3"}
@@ -500,9 +517,9 @@ func runC09(r *core.Run) {
 
 	// ---- 2. schedules chosen on the real code: systematic preemption -------
 	pairs := [][2]string{{"UC", "UC"}, {"R", "UC"}, {"UC", "R"}, {"RUC", "UC"}, {"UR", "UC"}, {"UCUC", "RUC"}, {"UE", "R"}, {"UC", "UE"},
-		{"U12C", "U21C"}, {"CC", "CC"}, {"CC", "R2"}, {"CR", "CC"}, {"CC", "UC2"}}
+		{"U12C", "U21C"}, {"CC", "CC"}, {"F2C", "UC2"}, {"FC", "UC"}, {"UC2", "F2U"}, {"FUC", "R"}, {"CC", "R2"}, {"CR", "CC"}, {"CC", "UC2"}}
 	if !r.Thorough {
-		pairs = pairs[:10]
+		pairs = pairs[:14]
 	}
 	batch := fpPreempt(r, pairs)
 	if !judge(batch) {
@@ -561,7 +578,7 @@ func runC09(r *core.Run) {
 	if r.Thorough {
 		nrand = 5000
 	}
-	names := []string{"R", "UC", "UR", "UE", "RUC", "UCUC", "U12C", "U21C", "R2", "UC2"}
+	names := []string{"R", "UC", "UR", "UE", "RUC", "UCUC", "U12C", "U21C", "R2", "UC2", "FC", "FUC", "F2C", "F2U"}
 	for i := 0; i < nrand; i++ {
 		np := 2 + r.Rand.Intn(2)
 		in := fpInit{Progs: map[string][]sched.Op{}, Exists: map[string]bool{"f1": true, "f2": true}}
@@ -628,7 +645,13 @@ func runC09(r *core.Run) {
 	}
 
 	// ---- 5. strict layer over everything that ran ---------------------------
-	acc, rej := validateStrict(r, all)
+	var strict []*fpTrace
+	for _, t := range all {
+		if !t.ObsOnly {
+			strict = append(strict, t)
+		}
+	}
+	acc, rej := validateStrict(r, strict)
 	finishEvidence(drift, firstDrift, acc, rej)
 }
 
